@@ -229,8 +229,12 @@ func orchMain() int {
 	}
 	var reports []reported
 	seen := map[string]bool{}
-	os.MkdirAll(filepath.Join(verifRoot, "replays"), 0755)
-	if old, _ := filepath.Glob(filepath.Join(verifRoot, "replays", prop+"-*.json")); old != nil {
+	replayDir := filepath.Join(verifRoot, "replays")
+	if os.Getenv("VERIF_NO_EVIDENCE") != "" {
+		replayDir = filepath.Join(verifRoot, ".build", "matrix-replays")
+	}
+	os.MkdirAll(replayDir, 0755)
+	if old, _ := filepath.Glob(filepath.Join(replayDir, prop+"-*.json")); old != nil {
 		for _, f := range old {
 			os.Remove(f)
 		}
@@ -243,7 +247,7 @@ func orchMain() int {
 		rf := ReplayFile{Desc: v.Desc, Thorough: tier == "thorough", Sig: v.Sig, Detail: v.Detail, Trace: v.Trace,
 			Note: fmt.Sprintf("minimised from %d to %d tape values with %d candidates; replay: ./check %s --replay <this file>", v.OrigLen, v.MinLen, v.ShrinkN, prop)}
 		name := fmt.Sprintf("%s-%d-%s.json", prop, v.Desc.Seed, sigSlug(v.Sig))
-		path := filepath.Join(verifRoot, "replays", name)
+		path := filepath.Join(replayDir, name)
 		js, _ := json.MarshalIndent(rf, "", " ")
 		os.WriteFile(path, js, 0644)
 		if !strings.Contains(v.Sig, "/crash/") && !strings.Contains(v.Sig, "/hang/") {
@@ -288,7 +292,9 @@ func orchMain() int {
 			nviol++
 		}
 	}
-	writeEvidence(p, tier, seed, tot, len(hashes), wall, nviol, nw, reportsToStrings(len(reports), nviol), harness)
+	if os.Getenv("VERIF_NO_EVIDENCE") == "" {
+		writeEvidence(p, tier, seed, tot, len(hashes), wall, nviol, nw, reportsToStrings(len(reports), nviol), harness)
+	}
 
 	// ---- report
 	fmt.Printf("dsim: runs=%d (seeded %d) distinct-nontrivial=%d sim-time=%s wall=%.1fs leftover-goroutine-runs=%d\n",
